@@ -147,10 +147,10 @@ PROPS['C01'] = dict(
     domains=['rt', 'unm', 'build'],
     no_model={'rt': True},
     n=dict(quick=dict(rt=2500, unm=800, build=600), thorough=dict(rt=120000, unm=40000, build=30000)),
-    theorems=[('Properties.C01', ['C01_header_section_round_trips', 'C01_block_framing_ignores_block_content', 'C01_marker_is_accepted_and_consumed', 'C01_marshal_layout', 'C01_marshal_then_parse_returns_the_record', 'C01_strictly_built_header_is_accepted_under_every_policy', 'C01_strictly_built_record_round_trips_without_digests', 'C01_strictly_built_record_round_trips', 'C01_base16_meets_the_codec_contract'])],
+    theorems=[('Properties.C01', ['C01_header_section_round_trips', 'C01_block_framing_ignores_block_content', 'C01_marker_is_accepted_and_consumed', 'C01_marshal_layout', 'C01_marshal_then_parse_returns_the_record', 'C01_strictly_built_header_is_accepted_under_every_policy', 'C01_strictly_built_record_round_trips_without_digests', 'C01_strictly_built_record_round_trips', 'C01_base16_meets_the_codec_contract', 'C01_gzip_member_round_trip'])],
     kinds={'panic', 'roundtrip-lossy', 'remarshal-differs', 'policy-incoherent', 'trimmed-value'},
     rule='rt: 1-5 records accepted by the strict builder (all record types incl. unknown, both versions, generic/HTTP/warc-fields blocks with delimiter-imitating content, unknown fields with odd but clean values), built under a random policy, marshaled, concatenated plain or as gzip members, read back through ONE WarcFileReader under another policy (2/3 strict) with the same add/repair flags, compared (version, type, ordered fields, block) and marshaled again; spill thresholds around the block size; unm/build: model correspondence. distinct = distinct implementation observations',
-    level_text='Proved in Coq end to end. Reader side (C01_marshal_then_parse_returns_the_record): for every record that is valid for the reader (version 1.0/1.1, well-formed header fields that validate with no finding, truthful Content-Length, block that parses to itself, digests absent or valid), every following byte sequence and stream tail, under every policy setting, parsing the marshalled form returns exactly that record (version, type, ordered fields, block), no finding, and leaves exactly the following bytes - so blocks imitating CRLFCRLF or WARC/1.1 cannot confuse framing. Builder side (C01_strictly_built_record_round_trips): whatever the strict builder returns - clean header fields, ANY content, length and digest fields left to its add-missing options - is such a valid record for EVERY reader policy, hence is read back from its serialization as exactly that record with no error and no finding. The theorem states what it needs from the digest text codec as a contract (the text written for a digest is read back by newDigest, under any default encoding of the reader, as a digest whose declared hash validates against the same bytes, and is a clean header value); the contract is proved for base16 and every supported algorithm for any hash function returning alg_size bytes (C01_base16_meets_the_codec_contract); without digest fields no contract is needed (C01_..._without_digests). Two hypotheses the proof forced: the record type given to the builder is 0 or the one its WARC-Type field names (a defect found this way: Build did not adopt a type given only as header field; repaired, fix 71854e8), and the block policy is the one axis with a side condition (the builder rejects block problems or the reader ignores them; reading choice, DESIGN 0.6). PARTIAL in: the codec contract for base32/base64 (their decoders are oracles), and the gzip container; re-marshalling equality follows in the model from record equality and is evaluated on the implementation. All of these are evaluated by the executable statement (build, marshal plain or gzip, parse under another policy, compare, marshal again)',
+    level_text='Proved in Coq end to end. Reader side (C01_marshal_then_parse_returns_the_record): for every record that is valid for the reader (version 1.0/1.1, well-formed header fields that validate with no finding, truthful Content-Length, block that parses to itself, digests absent or valid), every following byte sequence and stream tail, under every policy setting, parsing the marshalled form returns exactly that record (version, type, ordered fields, block), no finding, and leaves exactly the following bytes - so blocks imitating CRLFCRLF or WARC/1.1 cannot confuse framing. Builder side (C01_strictly_built_record_round_trips): whatever the strict builder returns - clean header fields, ANY content, length and digest fields left to its add-missing options - is such a valid record for EVERY reader policy, hence is read back from its serialization as exactly that record with no error and no finding. The theorem states what it needs from the digest text codec as a contract (the text written for a digest is read back by newDigest, under any default encoding of the reader, as a digest whose declared hash validates against the same bytes, and is a clean header value); the contract is proved for base16 and every supported algorithm for any hash function returning alg_size bytes (C01_base16_meets_the_codec_contract); without digest fields no contract is needed (C01_..._without_digests). Two hypotheses the proof forced: the record type given to the builder is 0 or the one its WARC-Type field names (a defect found this way: Build did not adopt a type given only as header field; repaired, fix 71854e8), and the block policy is the one axis with a side condition (the builder rejects block problems or the reader ignores them; reading choice, DESIGN 0.6). Through the per-record gzip container at item level (a whole member whose payload is the serialized record) the same record comes back (C01_gzip_member_round_trip). PARTIAL in: the codec contract for base32/base64 (their decoders are oracles) and the compressed bytes of the gzip container (an oracle); re-marshalling equality follows in the model from record equality and is evaluated on the implementation. All of these are evaluated by the executable statement (build, marshal plain or gzip, parse under another policy, compare, marshal again)',
     level_note="Trusted: Coq kernel, extraction (ExtrOcamlBasic), harness and generators. Oracles: hash functions (Python hashlib), base32/base64 decoders, mime.WordDecoder, net/http header parsing, whatwg-url, net.ParseIP, time.Parse, Unicode case mapping; klauspost gzip (a member is its payload; a cut member yields a payload prefix then io.ErrUnexpectedEOF). bufio.Reader is remaining bytes + a persistent tail condition. Findings are compared by coarse kind derived from error texts. Reading of the text: the reader runs with the builder's add-missing/repair flags; values with edge blanks are a recorded known finding (trimmed), values with encoded-words are outside the property.",
     assumptions=[],
 )
@@ -191,10 +191,10 @@ PROPS['C07'] = dict(
 PROPS['C08'] = dict(
     id='C08', domains=['coh', 'hparse', 'validate', 'unm', 'build'], no_model={'coh': True},
     n=dict(quick=dict(coh=1500, hparse=800, validate=300, unm=600, build=600), thorough=dict(coh=60000, hparse=30000, validate=20000, unm=20000, build=20000)),
-    theorems=[('Properties.C08', ['C08_header_fail_is_first_warn_finding', 'C08_header_ignore_no_findings', 'C08_header_warn_never_errors', 'C08_digest_verification_coherent', 'C08_no_axis_at_warn_parser_adds_no_finding', 'C08_no_axis_at_warn_builder_adds_no_finding', 'C08_uniform_ignore_and_uniform_fail_are_covered', 'C08_parser_fail_errs_exactly_when_warn_finds_or_errs', 'C08_builder_fail_errs_exactly_when_warn_finds_or_errs', 'C08_header_parser_rejection_is_monotone', 'C08_header_validation_rejection_is_monotone', 'C08_header_parser_strict_acceptance_is_policy_independent', 'C08_axis_monotonicity_refuted_by_block_repair', 'C08_parser_rejection_is_monotone', 'C08_builder_rejection_is_monotone'])],
+    theorems=[('Properties.C08', ['C08_header_fail_is_first_warn_finding', 'C08_header_ignore_no_findings', 'C08_header_warn_never_errors', 'C08_digest_verification_coherent', 'C08_no_axis_at_warn_parser_adds_no_finding', 'C08_no_axis_at_warn_builder_adds_no_finding', 'C08_uniform_ignore_and_uniform_fail_are_covered', 'C08_parser_fail_errs_exactly_when_warn_finds_or_errs', 'C08_builder_fail_errs_exactly_when_warn_finds_or_errs', 'C08_header_parser_rejection_is_monotone', 'C08_header_validation_rejection_is_monotone', 'C08_header_parser_strict_acceptance_is_policy_independent', 'C08_axis_monotonicity_refuted_by_block_repair', 'C08_parser_rejection_is_monotone', 'C08_builder_rejection_is_monotone', 'C08_gzip_no_axis_at_warn_adds_no_finding', 'C08_gzip_fail_errs_exactly_when_warn_finds_or_errs', 'C08_gzip_rejection_is_monotone'])],
     kinds={'panic', 'policy-incoherent', 'wfblock-repair-nonmonotone'},
     rule='coh: mutated record streams (parser, plain/gzip) and builder inputs with declared lengths/digests; each run under uniform ignore / warn / fail (no findings under ignore; nil error under fail implies empty validation; fail errs iff warn has a finding or error; rejection monotone) and axis by axis (syntax, spec, unknown type, block) against the other axes as drawn; hparse/validate/unm/build: model correspondence under all policies',
-    level_text='Proved in Coq for the WHOLE parser pipeline on plain streams (record-start search, version line, header parser, header validation, parseBlock, length/digest verification, end-of-record marker) and the whole builder, for every input and option setting - all four sentences: (1-2) with no axis at warn - uniform ignore, uniform fail, every mix - no stage adds a finding, so under ignore no finding is produced and under fail a nil error comes with an empty validation; (3) with all axes at one level, fail returns an error exactly when warn produces at least one finding or an error - the two runs proceed in lock step until the first finding, stage by stage; (4) rejection is monotone along all four axes at once (rejected under a setting, rejected under every setting at least as strict on each axis, in particular axis by axis) whenever the syntax level is the same in both settings or the warc-fields block repair is off (C08_parser_rejection_is_monotone, C08_builder_rejection_is_monotone: every stage is blind to the findings it is handed, so the pipeline is a function of the erased values on which each policy-dependent stage is monotone), and it is REFUTED in the remaining case (C08_axis_monotonicity_refuted_by_block_repair: the block is only repaired when the syntax policy makes its problems visible, so a record that declares the digest of its repaired block is rejected under syntax=ignore, accepted under warn, rejected under fail) - a witness the proof attempt produced and the implementation reproduces (known finding wfblock-repair-nonmonotone). PARTIAL only in that the gzip container is not mechanised; it is evaluated on the implementation, uniformly and axis by axis, for every generated input (including repair-sensitive records that declare the digest of their repaired block), the stage models being tied by the correspondence run. The defect that folded header lines ignored the policy was found here and repaired',
+    level_text='Proved in Coq for the WHOLE parser pipeline on plain streams (record-start search, version line, header parser, header validation, parseBlock, length/digest verification, end-of-record marker) and the whole builder, for every input and option setting - all four sentences: (1-2) with no axis at warn - uniform ignore, uniform fail, every mix - no stage adds a finding, so under ignore no finding is produced and under fail a nil error comes with an empty validation; (3) with all axes at one level, fail returns an error exactly when warn produces at least one finding or an error - the two runs proceed in lock step until the first finding, stage by stage; (4) rejection is monotone along all four axes at once (rejected under a setting, rejected under every setting at least as strict on each axis, in particular axis by axis) whenever the syntax level is the same in both settings or the warc-fields block repair is off (C08_parser_rejection_is_monotone, C08_builder_rejection_is_monotone: every stage is blind to the findings it is handed, so the pipeline is a function of the erased values on which each policy-dependent stage is monotone), and it is REFUTED in the remaining case (C08_axis_monotonicity_refuted_by_block_repair: the block is only repaired when the syntax policy makes its problems visible, so a record that declares the digest of its repaired block is rejected under syntax=ignore, accepted under warn, rejected under fail) - a witness the proof attempt produced and the implementation reproduces (known finding wfblock-repair-nonmonotone). Per-record gzip streams are covered at the level of items (a member is what its payload decompresses to, whole or cut; junk between members; members cut inside the gzip header): the member wrapper around the record parser keeps all four sentences (C08_gzip_*). The compressed bytes themselves are not modelled (klauspost gzip is an oracle). The implementation is run, uniformly and axis by axis, plain and gzip, for every generated input (including repair-sensitive records that declare the digest of their repaired block), the stage models being tied by the correspondence run. The defect that folded header lines ignored the policy was found here and repaired',
     level_note='Trusted: Coq kernel, extraction (ExtrOcamlBasic), harness and generators. Oracles: hash functions (Python hashlib), base32/base64 decoders, mime.WordDecoder, net/http header parsing, whatwg-url, net.ParseIP, time.Parse, Unicode case mapping; klauspost gzip (a member is its payload; a cut member yields a payload prefix then io.ErrUnexpectedEOF). bufio.Reader is remaining bytes + a persistent tail condition. Findings are compared by coarse kind derived from error texts. ',
     assumptions=[],
 )
